@@ -56,6 +56,9 @@ NatOutOfPlace(tags, dt) ==
 (* strings mixed with values NumPy does not stringify (dates, timedeltas, bytes, objects, booleans):
    whether the result is a string or an object vector is NumPy's coercion, so the mix is judged only
    when a string vector was observed *)
+(* np.timedelta64 mixed with numbers or booleans: NumPy coerces the numbers into durations of the timedelta's unit
+   (a value change that is NumPy's, not the library's) - not judged *)
+TdMix(tags) == "np_td64" \in Present(tags) /\ Present(tags) \cap (NumTags \cup BoolTags) # {}
 MixFree(tags, dt, isstr) == dt = "" /\ Class(tags) = "string-mixed" /\ ~isstr
 
 (* statement-level expectations that only apply where the class is clear *)
@@ -64,7 +67,7 @@ StringInferred(tags, dt, isstr) == (dt = "" /\ Class(tags) = "string") => isstr 
 
 Judge(e) ==
   LET tags == e.tags  dt == e.dt  na == NAsetS(tags, e.isstr) IN
-  IF e.unsupported \/ ~SupportedDt(tags, dt) \/ NatOutOfPlace(tags, dt) \/ MixFree(tags, dt, e.isstr) THEN ""                      \* NumPy itself rejects the dtype / value combination: not generated as a claim
+  IF e.unsupported \/ ~SupportedDt(tags, dt) \/ NatOutOfPlace(tags, dt) \/ MixFree(tags, dt, e.isstr) \/ TdMix(tags) THEN ""                      \* NumPy itself rejects the dtype / value combination: not generated as a claim
   ELSE IF e.err # "" THEN "ctor:raised"
   ELSE IF e.ndim # 1 \/ e.len # Len(tags) THEN "ctor:not-a-vector-of-the-input-length"
   ELSE IF ~StringInferred(tags, dt, e.isstr) THEN "ctor:strings-did-not-give-a-string-vector"
